@@ -1,6 +1,7 @@
 package main
 
 import (
+	"context"
 	"fmt"
 	"hash/fnv"
 	"io"
@@ -289,6 +290,8 @@ func (rp *recvProp) run(c Case, component bool, smid string, n0 int, rng *rand.R
 	done := make(chan bool, 1)
 	quit := make(chan struct{})
 	panicked := false
+	var pendCh chan stanza.IQ
+	pendCancel := func() {}
 	var rcClient *xmpp.Client
 	var rcCfg *xmpp.Config
 	var rcSess *xmpp.Session
@@ -323,6 +326,21 @@ func (rp *recvProp) run(c Case, component bool, smid string, n0 int, rng *rand.R
 		}
 		client.Session = sess
 		rcSess = sess
+		// a request is pending under the id "pend": responses with that id (the server may send several) go to its
+		// channel - the first one - or to the routes like any other stanza; all of them count as routed
+		for _, op := range c.Ops {
+			if op[0] == "in" && op[1] == "iq" && unhx(op[2]) == "pend" {
+				iq, _ := stanza.NewIQ(stanza.Attrs{Type: stanza.IQTypeGet, Id: "pend", To: "srv"})
+				iq.Payload = &stanza.Version{}
+				ctx, cancel := context.WithCancel(context.Background())
+				pendCancel = cancel
+				if ch, err := client.SendIQ(ctx, iq); err == nil {
+					pendCh = ch
+				}
+				st.takeWrites()
+				break
+			}
+		}
 		go func() {
 			defer func() {
 				if r := recover(); r != nil {
@@ -339,6 +357,7 @@ func (rp *recvProp) run(c Case, component bool, smid string, n0 int, rng *rand.R
 	case <-time.After(5 * time.Second):
 		hang = true
 	}
+	pendCancel()
 	// let the routing goroutines finish (quiescence: goroutine count back to the baseline)
 	deadline := time.Now().Add(2 * time.Second)
 	for runtime.NumGoroutine() > base && time.Now().Before(deadline) {
@@ -358,6 +377,20 @@ func (rp *recvProp) run(c Case, component bool, smid string, n0 int, rng *rand.R
 	}
 	mu.Lock()
 	defer mu.Unlock()
+	if pendCh != nil {
+	drainPend:
+		for {
+			select {
+			case v, ok := <-pendCh:
+				if !ok {
+					break drainPend
+				}
+				routed = append(routed, "iq:"+hx(v.Id))
+			default:
+				break drainPend
+			}
+		}
+	}
 	if !component {
 		sort.Strings(routed)
 	}
@@ -468,6 +501,21 @@ func (rp recvProp) Generate(rng *rand.Rand, tier string, st *Stats) []Case {
 			}
 		}
 		return ops
+	}
+	// a pending request and several responses carrying its id, back to back (each is routed in its own goroutine)
+	if rp.id == "C05" {
+		dup := func(k int) [][]string {
+			var ops [][]string
+			for i := 0; i < k; i++ {
+				ops = append(ops, recvOp("iq", hx("pend"), false))
+			}
+			return ops
+		}
+		for _, k := range []int{2, 4, 16, 200} {
+			for r := 0; r < 10; r++ {
+				mk("client", "sm1", 0, append(append(seq([]string{"msg"}), dup(k)...), seq([]string{"r", "msg"})...))
+			}
+		}
 	}
 	// corpus (witnesses of F-09, F-05, F-12)
 	mk("client", "sm1", 0, seq([]string{"a", "r"}))
